@@ -133,8 +133,12 @@ func loadProgram(o loadOpts) (*Program, error) {
 		}
 	}
 	recoverRenames(p)
+	gProg = p
 	return p, nil
 }
+
+// gProg: the program under analysis (one per process), for helpers that are not handed it.
+var gProg *Program
 
 // CallGraph builds (lazily) the VTA call graph over the whole program.
 func (p *Program) CallGraph() *callgraph.Graph {
